@@ -526,7 +526,7 @@ PROPS.update({
     ),
     'C18': dict(
         explanation="theorems: accepted exactly for single-field structs; the returned reference is to the place self.<field> and Target is the field's declared type (arity_rejected, deref_is_field_place). L1; L2: address and type identity, write-through, rejections, unsized targets.",
-        theorems=[(CMP + 'C18', ['DX.arity_rejected', 'DX.deref_is_field_place'])],
+        theorems=[(CMP + 'C18', ['DX.arity_rejected', 'DX.deref_is_field_place', 'DX.deref_sig_free_of_field_type', 'DX.deref_returns_trait_target'])],
         l1=[('ops', 4000, 150000)],
         extra=extras(extra_programs(l2gen.gen_c18_program, 240, 4800, what='Deref / DerefMut do not target the single field itself'), extra_verdicts(l2gen.gen_c18_reject_case, 96, 1000)),
         labels=r':Deref(Mut)?$',
